@@ -11,7 +11,7 @@
      Api    {who: "cmd", op, kind: "fetch" | "post", lock, filter | share, parts, f, status, code, body, resp}
             {who: "node", op, kind: "fetch", lock, filter, f, code, body, resp, at}      at: (mode B) when the request was made
             {who: "byz", share, lock, parts, status}             a direct post
-     Done   {c, ok, err, file, printed}                          the command returned; the operator's overrides file afterwards
+     Done   {c, ok, err, file, printed, panic}                   the command returned (panic: it crashed); the operator's overrides file afterwards
      Plant  {op, file, shares}                                   an overrides file appears in an operator's directory
      Node   {op, act: "start", api, watch, ok} | {op, act: "stop"}
      Reload {op}                                                 (mode A) the node has processed a file event
@@ -23,6 +23,7 @@
    spec is in, the result, the file and the node's answers must be the spec's.  There is no unlogged choice: validation is
    linear. *)
 EXTENDS FeeRecipient, TraceCommon
+CONSTANT AllowPanic      \* deviation D2, as coded: `sign` panics on an answer whose groups carry no message (the contract: it fails)
 tvars == <<vars, tr, l>>
 Cfg == Traces[tr][1]
 TraceInit == TrInit /\ Init
@@ -78,6 +79,7 @@ PrintedOf(e) == {[v |-> e.printed[j].v, fr |-> e.printed[j].fr, gl |-> e.printed
 SameFile(obs, f) == obs.st = f.st /\ (f.st = "ok" => (Len(obs.regs) = Len(f.regs) /\ Range(obs.regs) = Range(f.regs)))
 TDone == /\ IsEvent("Done") /\ Ev.c \in Cmds
          /\ Named("EarlyReturn", cmd[Ev.c].pc = "fin")
+         /\ Named("Panic", AllowPanic \/ ~Has(Ev, "panic"))
          /\ Named("Result", Ev.ok = cmd[Ev.c].ok)
          /\ Named("File", SameFile(FileOf(Ev.file), file[cmd[Ev.c].op]))
          /\ Named("Printed", (cmd[Ev.c].kind = "list" /\ cmd[Ev.c].ok) => (PrintedOf(Ev) = cmd[Ev.c].out /\ Len(Ev.printed) = Cardinality(cmd[Ev.c].out)))
